@@ -211,11 +211,16 @@ static const uint32 MINIMUM_FIELD_HEADERS_SIZE = (3*sizeof(uint32));  // name_le
 
 static UBool IsFieldPointerValid(const UMessage * msg, uint8 * ptr)
 {
-   void * ftptr = (GetNumValidBytesAt(msg, ptr) >= MINIMUM_FIELD_HEADERS_SIZE) ? GetFieldTypePointer(ptr) : NULL;
-   if ((ftptr)&&(GetNumValidBytesAt(msg, ((uint8*)ftptr)) >= (sizeof(uint32)+sizeof(uint32))))
+   const uint32 numValidBytes = GetNumValidBytesAt(msg, ptr);
+   if ((numValidBytes >= MINIMUM_FIELD_HEADERS_SIZE)&&(GetFieldNameLength(ptr) <= (numValidBytes-MINIMUM_FIELD_HEADERS_SIZE)))  /* make sure the field's name-string doesn't extend past the valid bytes */
    {
-      uint8 * fData = GetFieldData(ftptr);
-      return (GetNumValidBytesAt(msg, fData) > 0);
+      void * ftptr = GetFieldTypePointer(ptr);
+      if (GetNumValidBytesAt(msg, ((uint8*)ftptr)) >= (sizeof(uint32)+sizeof(uint32)))
+      {
+         uint8 * fData = GetFieldData(ftptr);
+         const uint32 numValidDataBytes = GetNumValidBytesAt(msg, fData);
+         return ((numValidDataBytes > 0)&&(GetFieldDataLength(ftptr) <= numValidDataBytes));  /* make sure the field's data doesn't extend past the valid bytes either */
+      }
    }
    return UFalse;
 }
